@@ -222,7 +222,8 @@ def gen_template(rng, depth, level=0, holes=True):
     if holes and r < 0.45:
         return tm("expr", ch=[tm("sym", "unquote"), tm("sym", rng.choice(["x", "y"]))])
     if holes and r < 0.6:
-        return tm("expr", ch=[tm("sym", "unquote-splice"), tm("sym", rng.choice(["xs", "ys"]))])
+        return tm("expr", ch=[tm("sym", rng.choice(["unquote-splice", "unquote-splice", "unquote_splice"])),
+                              tm("sym", rng.choice(["xs", "ys"]))])
     if r < 0.7:
         return tm("expr", ch=[tm("sym", "quasiquote"), gen_template(rng, depth - 1, level + 1, holes)])
     if holes and level > 0 and r < 0.8:
@@ -301,6 +302,12 @@ def quasi_cases(rng, q):
             for c in reversed(chain):
                 t = tm("expr", ch=[tm("sym", {"Q": "quasiquote", "U": "unquote", "S": "unquote-splice"}[c]), t])
             temps.append(tm("list", ch=[tm("sym", "a"), t, tm("int", "1")]))
+            if "S" in chain:
+                # the same chain with the splice operator in its other spelling
+                t2 = leaf
+                for c in reversed(chain):
+                    t2 = tm("expr", ch=[tm("sym", {"Q": "quasiquote", "U": "unquote", "S": "unquote_splice"}[c]), t2])
+                temps.append(tm("list", ch=[tm("sym", "a"), t2, tm("int", "1")]))
     cases = []
     for t in temps:
         for _ in range(2 if q else 4):
